@@ -4,8 +4,6 @@
 -/
 import StVerif.Lemmas.Codec
 import StVerif.Lemmas.CodecDecode
-import StVerif.Lemmas.KernelBridge
-import StVerif.Lemmas.KernelLoopsCodec
 
 namespace StVerif.Props.C14
 open StVerif StVerif.Codec StVerif.Lemmas.Codec
@@ -141,22 +139,5 @@ theorem tables_inverse :
 example : Bytes [0, 255, 16, 127, 128] := by decide
 example : b64Encode [77, 97, 110, 255, 0] = [84, 87, 70, 117, 47, 119, 65, 61] := by decide
 example : hexEncode [0, 255, 16] = [48, 48, 102, 102, 49, 48] := by decide
-
-/-! ### tie to the source (tools/gen_kernels.py) -/
-
-/-- `b64_encode_size` as translated from include/st_codecs_priv.h on every run is the model's size function for every
-    input length below 2^62 (beyond that the C++ multiplication wraps; such buffers cannot exist) -/
-theorem encode_size_is_model (n : Nat) (h : n < 2 ^ 62) :
-    StVerif.Generated.Kernels.b64_encode_size n = .ok (StVerif.Codec.b64EncodeSize n) :=
-  KernelBridge.b64_encode_size_eq n h
-
-/-- `_ST_PRIVATE::hex_encode` and `b64_encode` as translated from include/st_codecs_priv.h on every run (loops, the
-    `switch (size)` tail, the alphabets as the tables the function declares) are the model's encoders for every input:
-    no load outside the source (`sp[1]`, `sp[2]` of a tail are read only when present), every table index inside the
-    alphabet, the `default:` assertion unreachable -/
-theorem translated_encoders_are_model (mem : List Nat) (hb : ∀ b ∈ mem, b < 256) (fuel : Nat) (hf : mem.length < fuel) :
-    StVerif.Generated.Kernels.hex_encode mem fuel 0 mem.length = .ok (StVerif.Codec.hexEncode mem) ∧
-    StVerif.Generated.Kernels.b64_encode mem fuel 0 mem.length = .ok (StVerif.Codec.b64Encode mem) :=
-  ⟨KernelBridge.hex_encode_eq mem fuel hf, KernelBridge.b64_encode_eq mem hb fuel hf⟩
 
 end StVerif.Props.C14
